@@ -135,3 +135,25 @@ def check_pattern(name, pattern, cnf):
             if sat != (t == want):
                 problems.append(f'operand variables {pattern} = {tuple(int(x) for x in xs)}, top={int(t)}: clauses {"satisfied" if sat else "falsified"} but {name} gives {int(want)}')
     return problems
+
+
+def check_repeats(ck, table, R):
+    """Repeated operands: the same literal in several operand positions (XOR(x, x) = 0,
+    AND(x, x) = x ...), all equality patterns of every legal arity <= 3."""
+    repo = ck.repo
+    for t, (hmod, hname, vnode, knode) in table.items():
+        if t == 'INPUT' or semantics.ORACLE[t][0] == semantics.ANY:
+            continue
+        h = hmod.func(hname)
+        for n in [a for a in semantics.arities(t, 3) if a >= 2]:
+            probs = []
+            for pat in patterns(n):
+                cnf = clauses_for(repo, hmod, hname, pat, max(pat) + 1)
+                if isinstance(cnf, str):
+                    probs.append(f'operands {pat}: handler raises {cnf}')
+                    continue
+                pr = check_pattern(t, pat, cnf)
+                if pr:
+                    probs.append(pr[0])
+            ck.check(not probs, R, hmod, h, f'clauses of {t}/{n} stay exact when operands repeat (all equality patterns)',
+                     '; '.join(probs[:3]), construct=f'{hname} for {t} arity {n} with repeated operands')
